@@ -151,10 +151,11 @@ Proof.
 Qed.
 
 (* ---------------------------------------------------------------- factors *)
-Lemma skip_ws_lines (f : list line) : (forall l f', f = l :: f' -> l <> []) -> skip_ws (to_stream f) = to_stream f.
+Lemma skip_ws_lines (f : list line) :
+  (forall l f', f = l :: f' -> exists w r, l = Word w :: r /\ w <> EmptyString) -> skip_ws (to_stream f) = to_stream f.
 Proof.
-  destruct f as [|l f]; [reflexivity|]. intros H. specialize (H l f eq_refl). rewrite to_stream_cons.
-  destruct l; [congruence|reflexivity].
+  destruct f as [|l f]; [reflexivity|]. intros H. destruct (H l f eq_refl) as (w & r & -> & Hw). rewrite to_stream_cons.
+  destruct w; [congruence|reflexivity].
 Qed.
 
 Lemma rd_factors_lines_l R (Fs : list (list (list D))) : 1 <= R ->
@@ -174,7 +175,7 @@ Proof.
     - cbn in E. inversion E; subst s'. apply IH, HFs.
     - rewrite Hs' by discriminate. rewrite skip_ws_lines; [apply IH, HFs|].
       intros l f' Ef. destruct Fs as [|B Fs']; [discriminate|]. cbn [flat_map] in Ef. unfold factor_lines at 1 in Ef.
-      inversion Ef. discriminate. }
+      inversion Ef. eexists _, _. split; [reflexivity|discriminate]. }
   rewrite Es. cbn [bindo]. now rewrite (reshapeC2_concat D A R HA).
 Qed.
 
@@ -222,7 +223,7 @@ Proof.
     + rewrite map_length, (length_kshape D K). fold (krank K).
       rewrite rd_factors_lines_l by auto. cbn [bindo]. now destruct K.
     + intros l f' Ef. destruct (kfactors K) as [|B Fs']; [congruence|]. cbn [flat_map] in Ef. unfold factor_lines at 1 in Ef.
-      inversion Ef. discriminate.
+      inversion Ef. eexists _, _. split; [reflexivity|discriminate].
   - intros [Hm Hn] _. rewrite <- (app_nil_r (to_stream _)). unfold C16Lines.import_stream. rewrite readline_cons. cbn [fst snd].
     cbn [String.eqb Ascii.eqb Bool.eqb]. rewrite to_stream_app, <- app_assoc, rd_shape_l_lines by discriminate. cbn [bindo fst snd].
     rewrite app_nil_r. subst m. rewrite <- (length_concat_rows D A n Hn).
